@@ -302,6 +302,11 @@ pub fn run_case(servers: &mut Servers, f: &[&str]) -> String {
     let gap: u64 = field(f, "gap=").map(|s| s.parse().unwrap()).unwrap_or(0);
     let exp: Option<usize> = field(f, "exp=").map(|s| s.parse().unwrap());
     let limit = Duration::from_millis(field(f, "limit=").map(|s| s.parse().unwrap()).unwrap_or(4000));
+    // how the client ends: half (shutdown of its sending side, default), full (closes the socket), rst
+    // (TCP reset through SO_LINGER 0); hold=<n>: the bytes after the first n are only sent once a
+    // "100 Continue" has arrived (or 400 ms have passed)
+    let fin = field(f, "fin=").unwrap_or("half").to_string();
+    let hold: Option<usize> = field(f, "hold=").map(|s| s.parse().unwrap());
 
     // leftovers of an earlier conversation must not be attributed to this one
     while let Ok(Some(_)) = servers.server(kind).try_recv() {}
@@ -311,6 +316,9 @@ pub fn run_case(servers: &mut Servers, f: &[&str]) -> String {
         crate::LIB_PANICS.store(0, Ordering::SeqCst);
     }
 
+    if eof && (fin == "rst" || fin == "full") {
+        return run_vanish(servers, kind, &stream, &script, &fin);
+    }
     let conn = servers.connect(kind);
     let peer = conn.local_addr_string();
     let mut wconn = conn.try_clone();
@@ -320,7 +328,24 @@ pub fn run_case(servers: &mut Servers, f: &[&str]) -> String {
     let writer_done = Arc::new(AtomicBool::new(false));
 
     let wd = writer_done.clone();
+    let wire_w = wire.clone();
+    let fin_w = fin.clone();
     let wt = std::thread::spawn(move || {
+        let mut stream = stream;
+        if let Some(h) = hold {
+            if h < stream.len() {
+                let rest = stream.split_off(h);
+                let _ = wconn.write_all(&stream);
+                let t = Instant::now();
+                while t.elapsed() < Duration::from_millis(400) {
+                    if find(&wire_w.lock().unwrap(), b" 100 ").is_some() {
+                        break;
+                    }
+                    std::thread::sleep(Duration::from_millis(1));
+                }
+                stream = rest;
+            }
+        }
         // one write per segment; remaining bytes go in one write
         let mut pos = 0;
         for s in seg {
@@ -340,7 +365,10 @@ pub fn run_case(servers: &mut Servers, f: &[&str]) -> String {
             let _ = wconn.write_all(&stream[pos..]);
         }
         if eof {
-            wconn.shutdown(Shutdown::Write);
+            match fin_w.as_str() {
+                "full" => wconn.shutdown(Shutdown::Both),
+                _ => wconn.shutdown(Shutdown::Write),
+            }
         }
         wd.store(true, Ordering::SeqCst);
     });
@@ -461,4 +489,41 @@ pub fn run_case(servers: &mut Servers, f: &[&str]) -> String {
         String::new()
     };
     format!("n={} {}wire={} end={} stray={}{}", reqs.len(), reqs.iter().map(|r| format!("{} ", r)).collect::<String>(), hex(&w), end, stray, extra)
+}
+
+/// The client sends its bytes and vanishes at once: `full` = closes the socket (FIN; later data from
+/// the server is answered by RST), `rst` = abortive close (SO_LINGER 0, TCP). Nothing can be read
+/// back; the observation is what the application was handed and whether answering worked.
+fn run_vanish(servers: &mut Servers, kind: &str, stream: &[u8], script: &[Action], fin: &str) -> String {
+    let mut c = servers.connect(kind);
+    let peer = c.local_addr_string();
+    let _ = c.write_all(stream);
+    if fin == "rst" {
+        if let Conn::T(s) = &c {
+            use std::os::unix::io::AsRawFd;
+            let l = libc::linger { l_onoff: 1, l_linger: 0 };
+            unsafe {
+                libc::setsockopt(s.as_raw_fd(), libc::SOL_SOCKET, libc::SO_LINGER, &l as *const _ as *const libc::c_void,
+                                 std::mem::size_of::<libc::linger>() as libc::socklen_t);
+            }
+        }
+    }
+    drop(c);
+    let start = Instant::now();
+    let mut last = Instant::now();
+    let mut reqs: Vec<String> = Vec::new();
+    let mut idx = 0;
+    while start.elapsed() < Duration::from_millis(3000) && last.elapsed() < Duration::from_millis(120) {
+        if let Ok(Some(rq)) = servers.server(kind).recv_timeout(Duration::from_millis(5)) {
+            let act = if idx < script.len() { &script[idx] } else { script.last().unwrap() };
+            idx += 1;
+            let r = std::panic::catch_unwind(std::panic::AssertUnwindSafe(|| handle(rq, act, &peer).text));
+            match r {
+                Ok(t) => reqs.push(t),
+                Err(_) => reqs.push("[PANIC-IN-HANDLER]".to_string()),
+            }
+            last = Instant::now();
+        }
+    }
+    format!("n={} {}wire=- end=closed stray=0", reqs.len(), reqs.iter().map(|r| format!("{} ", r)).collect::<String>())
 }
